@@ -529,7 +529,7 @@ func c03MapDeclSuite(r *Result, rng *rand.Rand, tier string) {
 		n = 12000
 	}
 	for i := 0; i < n && !expired(); i++ {
-		in := c03MInput{Seed: rng.Int63(), Key: c03GKeyStyles[rng.Intn(len(c03GKeyStyles))], Shape: []string{"map", "map", "pmap", "maps", "pmaps", "batches"}[rng.Intn(6)],
+		in := c03MInput{Seed: rng.Int63(), Key: c03GKeyStylesNow()[rng.Intn(len(c03GKeyStylesNow()))], Shape: []string{"map", "map", "pmap", "maps", "pmaps", "batches"}[rng.Intn(6)],
 			N: 1 + rng.Intn(4), Returning: rng.Intn(3) != 0, Where: []string{"plain", "plain", "tx", "prepare", "skiptx"}[rng.Intn(5)], Schema: rng.Intn(3) != 0}
 		if in.Shape == "batches" {
 			in.Batch = 1 + rng.Intn(in.N+1)
@@ -600,7 +600,7 @@ func c03MapColsSuite(r *Result, rng *rand.Rand, tier string) {
 	var reals []interface{}
 	var ins []c03MColsInput
 	for it := 0; it < n && !expired(); it++ {
-		nodes, noLower := c03GGenRun(rand.New(rand.NewSource(rng.Int63())), c03GKeyStyles[rng.Intn(len(c03GKeyStyles))], false)
+		nodes, noLower := c03GGenRun(rand.New(rand.NewSource(rng.Int63())), c03GKeyStylesNow()[rng.Intn(len(c03GKeyStylesNow()))], false)
 		ns := schema.NamingStrategy{NoLowerCase: noLower}
 		leaves := c03GFlatten(nodes, ns, nil, nil, "", "")
 		in := c03MColsInput{NoLower: noLower, Nodes: nodes, Schema: rng.Intn(4) != 0, Single: rng.Intn(2) == 0, Ptr: rng.Intn(2) == 0, Selects: []string{}, Omits: []string{}, Desc: c03GDesc(nodes)}
